@@ -7,10 +7,10 @@ CONSTANTS
   BugIterUncompress = FALSE
   BugDelOpt = FALSE
   BugSkipLeft = FALSE
-  BugRecompute = TRUE
+  BugRecompute = FALSE
   BugOptTtl = FALSE
   BugOptName = FALSE
-  BugInsertOrder = FALSE
+  BugInsertOrder = TRUE
 INIT Init2
 NEXT Next
 INVARIANTS NoBad ViewCoherent EdnsCoherent FlagSound CacheCoherent CursorCoherent OptKeepsRoot NoJunk
